@@ -283,7 +283,7 @@ def rule_channel_loop(rep, repo):
                         "analyze_accumulator")
 
 
-def rule_po2_exponents(rep, repo, tier):
+def rule_po2_exponents(rep, repo, tier, rule="R3"):
   qi = repo.module(QI)
   if "PowerOfTwo" not in qi.classes or "get_exp" not in qi.functions:
     raise AnalysisError("anchor-missing PowerOfTwo / get_exp in "
@@ -320,17 +320,17 @@ def rule_po2_exponents(rep, repo, tier):
           r = pe.call(pe.getattr(q, "get_min_max_exp"), [], {})
           mn, mx = F(r[0]), F(r[1])
         except PyRaise as e:
-          rep.fail("R3", unit, "exponent-bookkeeping-raises",
+          rep.fail(rule, unit, "exponent-bookkeeping-raises",
                    "%s: get_min_max_exp raises %s" % (cfg, e), loc=loc,
                    instance=cfg)
           continue
         n += 1
-        rep.check(ehi <= mx, "R3", unit, "max-exponent-too-small",
+        rep.check(ehi <= mx, rule, unit, "max-exponent-too-small",
                   "%s emits exponents up to %s (value %s) but qtools "
                   "reports max exponent %s: integer bits of shifters / po2 "
                   "accumulators are too few" % (cfg, ehi, F(2) ** ehi, mx),
                   loc=loc, instance=cfg)
-        rep.check(elo >= -mn, "R3", unit, "min-exponent-too-large",
+        rep.check(elo >= -mn, rule, unit, "min-exponent-too-large",
                   "%s emits exponents down to %s but qtools reports min "
                   "exponent -%s: fractional bits of shifters / po2 "
                   "accumulators are too few" % (cfg, elo, mn),
